@@ -7,6 +7,7 @@ import (
 	"sort"
 	"strings"
 
+	"deps.dev/util/pypi"
 	"deps.dev/util/semver"
 
 	"verifharness/fw"
@@ -114,8 +115,15 @@ func Exec(f []string) (string, bool) {
 		if !ok || len(f) < 5 || (f[1] != "union" && f[1] != "inter") {
 			return "bad-op", true
 		}
-		ca, e1 := sys.ParseConstraint(fw.Unhx(f[3]))
-		cb, e2 := sys.ParseConstraint(fw.Unhx(f[4]))
+		// an operand written in set notation ({...}) is parsed with ParseSetConstraint
+		pc := func(t string) (*semver.Constraint, error) {
+			if strings.HasPrefix(t, "{") {
+				return sys.ParseSetConstraint(t)
+			}
+			return sys.ParseConstraint(t)
+		}
+		ca, e1 := pc(fw.Unhx(f[3]))
+		cb, e2 := pc(fw.Unhx(f[4]))
 		if e1 != nil || e2 != nil {
 			return "err", true
 		}
@@ -146,8 +154,8 @@ func Exec(f []string) (string, bool) {
 			}
 			fresh, _ := sys.Parse(fw.Unhx(hv))
 			// A and B are re-parsed so that the probes see unmodified operands
-			a2, _ := sys.ParseConstraint(fw.Unhx(f[3]))
-			b2, _ := sys.ParseConstraint(fw.Unhx(f[4]))
+			a2, _ := pc(fw.Unhx(f[3]))
+			b2, _ := pc(fw.Unhx(f[4]))
 			rpm := 2
 			if rperr == nil {
 				rpm = b2i(rp.MatchVersionPrerelease(v))
@@ -188,6 +196,11 @@ func Exec(f []string) (string, bool) {
 			b.WriteString("]")
 		}
 		return b.String(), true
+	case "pcanon": // pypi.CanonVersion
+		if len(f) != 2 {
+			return "bad-op", true
+		}
+		return "ok " + fw.Hx(pypi.CanonVersion(fw.Unhx(f[1]))), true
 	case "diff":
 		sys, ok := SysNames[f[1]]
 		if !ok || len(f) != 4 {
